@@ -11,10 +11,14 @@ import YaegiVerif.Proofs.C15Decls
   C15 — package-level variables initialise in dependency order; then init functions in source
   order; then main. Property theorems.
 
-  Full statement, proved for every package (`init_order`, `src_init_order`):
-      runY facts p = Spec.runGoS p
+  Full statement (not true of the code: `full_statement_fails`):
+      for every package p,  runY facts p = Spec.runGoS p
   — the program logs exactly what the Go specification's rules prescribe when every variable
   specification (after `var a, b = x, y` has been taken apart) is one node of the ordering.
+  Proved (`init_order_partial`, `src_init_order_partial`) under the one side condition
+  `operandsFirst`: no package-level comma-ok declaration `var v, ok = m[k]` / `<-c` stands before the
+  declaration of `m` / `c` (there `gta` panics: finding F15-9, `comma_ok_witness`); packages without
+  such declarations satisfy it (`operandsFirst_of_none`).
   Its ingredients, each for every input: the ordering loop is the specification's
   (`orderY_eq_spec`, since the repair of F15); the dependencies `getVarDependencies` collects are
   the specification's reference relation, transitively through function and method bodies
@@ -246,33 +250,44 @@ theorem cycle_rejection_eq_spec (p : Pkg) :
     orderY (collectDepsY Generated.C15.depFacts p) = .loop ↔ orderGo (goStepDeps p) = .loop := by
   rw [orderY_collected_eq_spec]
 
-/-- what `Eval` of a file does, for the steps read from the source: the variables in the order
-    decided by the loop of `genGlobalVarDecl`, then the `init` functions in source order, then
-    `main` — or the "variable definition loop" error before anything ran (`gta` no longer rejects
-    `var a, b = f()` with `f` declared later: F15-7) -/
+/-- with the facts read from the source `gta` rejects a package only for a comma-ok declaration
+    that stands before its operand (a multi-value declaration before its callee is retried: F15-7) -/
+theorem gtaRejects_expected (p : Pkg) : gtaRejects Expected.C15.depFacts p = !operandsFirst p := by
+  simp [gtaRejects, operandsFirst, Expected.C15.depFacts]
+
+/-- what `Eval` of a file does, for the steps read from the source: nothing if `gta` stops at a
+    comma-ok declaration; else the variables in the order decided by the loop of `genGlobalVarDecl`,
+    then the `init` functions in source order, then `main` — or the "variable definition loop" error
+    before anything ran -/
 theorem runY_expected (p : Pkg) :
     runY Expected.C15.execFacts Expected.C15.depFacts p =
-      match orderY (collectDepsY Expected.C15.depFacts p) with
-      | .ok o => ⟨labelsOf (stepsGo p.vars) o ++ p.inits ++ p.main.toList, false⟩
-      | _ => ⟨[], true⟩ := by
-  have hg : gtaRejects Expected.C15.depFacts p = false := by simp [gtaRejects, Expected.C15.depFacts]
+      if operandsFirst p then
+        match orderY (collectDepsY Expected.C15.depFacts p) with
+        | .ok o => ⟨labelsOf (stepsGo p.vars) o ++ p.inits ++ p.main.toList, false⟩
+        | _ => ⟨[], true⟩
+      else ⟨[], true⟩ := by
   unfold runY
-  rw [hg]
-  simp only [Bool.false_eq_true, if_false]
-  cases orderY (collectDepsY Expected.C15.depFacts p) <;>
-    simp [Expected.C15.execFacts, runSteps, List.append_assoc, Pkg.seenBy, specsY_expected]
+  rw [gtaRejects_expected]
+  cases operandsFirst p with
+  | false => rfl
+  | true =>
+    simp only [Bool.not_true, Bool.false_eq_true, if_false, if_true]
+    cases orderY (collectDepsY Expected.C15.depFacts p) <;>
+      simp [Expected.C15.execFacts, runSteps, List.append_assoc, Pkg.seenBy, specsY_expected]
 
 /-- the same for a directory loaded by `importSrc` -/
 theorem runImportY_expected (p : Pkg) :
     runImportY Expected.C15.execFacts Expected.C15.depFacts p =
       runY Expected.C15.execFacts Expected.C15.depFacts p := by
   rw [runY_expected]
-  have hg : gtaRejects Expected.C15.depFacts p = false := by simp [gtaRejects, Expected.C15.depFacts]
   unfold runImportY
-  rw [hg]
-  simp only [Bool.false_eq_true, if_false]
-  cases orderY (collectDepsY Expected.C15.depFacts p) <;>
-    simp [Expected.C15.execFacts, runSteps, List.append_assoc, Pkg.seenBy, specsY_expected]
+  rw [gtaRejects_expected]
+  cases operandsFirst p with
+  | false => rfl
+  | true =>
+    simp only [Bool.not_true, Bool.false_eq_true, if_false, if_true]
+    cases orderY (collectDepsY Expected.C15.depFacts p) <;>
+      simp [Expected.C15.execFacts, runSteps, List.append_assoc, Pkg.seenBy, specsY_expected]
 
 theorem collectDepsY_length (d : DepFacts) (p : Pkg) : (collectDepsY d p).length = (specsY d p.vars).length := by
   unfold collectDepsY
@@ -289,6 +304,10 @@ theorem init_then_main (p : Pkg) (evs : List String)
   rw [exec_tie, dep_tie, runImportY_expected, or_self] at h
   rw [dep_tie]
   rw [runY_expected] at h
+  cases hof : operandsFirst p with
+  | false => simp [hof] at h
+  | true =>
+  simp only [hof, if_true] at h
   cases ho : orderY (collectDepsY Expected.C15.depFacts p) with
   | ok o =>
     simp only [ho, Trace.mk.injEq, and_true] at h
@@ -300,15 +319,18 @@ theorem init_then_main (p : Pkg) (evs : List String)
   | loop => simp [ho] at h
   | fuel => simp [ho] at h
 
-/-- **C15, for every package**: the program logs exactly what the Go specification's rules
-    prescribe with one node per initialisation step — the steps in the specification's order (or
-    both reject the package: initialization cycle), then the init functions in source order, then
-    main. No side condition. (Before the repairs of round 3 this was `init_order_partial`, on a domain
-    that excluded dependencies through functions, multi-value and paired declarations, shadowing
-    locals, several blank variables and self references.) -/
-theorem init_order (p : Pkg) :
+/-- **C15, for every package that `gta` accepts**: the program logs exactly what the Go
+    specification's rules prescribe with one node per initialisation step — the steps in the
+    specification's order (or both reject the package: initialization cycle), then the init functions
+    in source order, then main. The only side condition is `operandsFirst` (no `var v, ok = m[k]` /
+    `<-c` before the declaration of `m` / `c`: F15-9, `comma_ok_witness`); whatever the variables
+    refer to and however. (Before the repairs of round 3 the domain of `init_order_partial` also
+    excluded dependencies through functions, multi-value declarations before their callee or read by
+    functions, paired declarations, shadowing locals, several blank variables and self references.) -/
+theorem init_order_partial (p : Pkg) (h : operandsFirst p = true) :
     runY Expected.C15.execFacts Expected.C15.depFacts p = runGoS p := by
-  rw [runY_expected]
+  rw [runY_expected, h]
+  simp only [if_true]
   unfold runGoS
   have := orderY_collected_eq_spec p
   rw [dep_tie] at this
@@ -317,21 +339,30 @@ theorem init_order (p : Pkg) :
 
 /-- the same statement for the facts regenerated from the source on this run, for a file and for a
     directory -/
-theorem init_order_generated (p : Pkg) :
+theorem init_order_generated_partial (p : Pkg) (h : operandsFirst p = true) :
     runY Generated.C15.execFacts Generated.C15.depFacts p = runGoS p ∧
     runImportY Generated.C15.execFacts Generated.C15.depFacts p = runGoS p := by
   rw [exec_tie, dep_tie, runImportY_expected]
-  exact ⟨init_order p, init_order p⟩
+  exact ⟨init_order_partial p h, init_order_partial p h⟩
 
-/-- **compared with the toolchain** (one node per variable): the same log whenever the two
+/-- a package without comma-ok declarations satisfies the side condition: for those the statement
+    is unconditional (every shape the repaired findings were about is among them) -/
+theorem operandsFirst_of_none (p : Pkg) (h : p.vars.all (fun v => !v.operandLater) = true) : operandsFirst p = true := by
+  unfold operandsFirst operandLate
+  simp only [List.all_eq_true, Bool.not_eq_true'] at h
+  simp only [Bool.not_eq_true', List.any_eq_false, Bool.and_eq_true, not_and, Bool.not_eq_true]
+  intro v hv _
+  exact h v hv
+
+/-- **compared with the toolchain** (one node per variable): the same log whenever, besides, the two
     readings of the specification agree on the package (`dom`; what it excludes: `one_node_witness`) -/
-theorem init_order_toolchain_partial (p : Pkg) (h : dom p = true) :
+theorem init_order_toolchain_partial (p : Pkg) (h0 : operandsFirst p = true) (h : dom p = true) :
     runY Generated.C15.execFacts Generated.C15.depFacts p = runGo p ∧
     runImportY Generated.C15.execFacts Generated.C15.depFacts p = runGo p := by
   unfold dom at h
   rw [decide_eq_true_eq] at h
   rw [← h]
-  exact init_order_generated p
+  exact init_order_generated_partial p h0
 
 /-- the domain is large: it contains every package whose specifications declare one variable each
     (it also contains most of the others: `one_node_witness` shows what it takes to leave it) -/
@@ -340,16 +371,23 @@ theorem dom_of_single (p : Pkg) (h : p.vars.all single = true) : dom p = true :=
 
 /-- so for those packages the interpreter logs what the compiled program logs -/
 theorem init_order_toolchain_single (p : Pkg) (h : p.vars.all single = true) :
-    runY Generated.C15.execFacts Generated.C15.depFacts p = runGo p :=
-  (init_order_toolchain_partial p (dom_of_single p h)).1
+    runY Generated.C15.execFacts Generated.C15.depFacts p = runGo p := by
+  refine (init_order_toolchain_partial p ?_ (dom_of_single p h)).1
+  unfold operandsFirst operandLate
+  simp only [Bool.not_eq_true', List.any_eq_false, Bool.and_eq_true, not_and, Bool.not_eq_true]
+  intro v hv hm
+  -- a specification with one name is not a multi-value declaration
+  have hs : single v = true := (List.all_eq_true.mp h) v hv
+  unfold single at hs
+  unfold VarSpec.multi at hm
+  simp only [Bool.and_eq_true, beq_iff_eq, decide_eq_true_eq] at hs hm
+  omega
 
 /-- the class label the harness uses is "in-domain" exactly on the domain of that theorem -/
-theorem classify_in_domain_iff (p : Pkg) : classify p = "in-domain" ↔ dom p = true := by
+theorem classify_in_domain_iff (p : Pkg) :
+    classify p = "in-domain" ↔ (operandsFirst p = true ∧ dom p = true) := by
   unfold classify
-  by_cases h : dom p = true
-  · simp [h]
-  · simp only [h, Bool.false_eq_true, if_false, iff_false]
-    decide
+  cases operandsFirst p <;> cases dom p <;> simp
 
 /-! ### which declarations run as init functions (for every list of declarations)
 
@@ -461,33 +499,35 @@ theorem src_exec_sequence (s : SrcPkg) (evs : List String)
   rw [hevs, hev]
   rfl
 
-/-- **C15 for every package given as source** (file or directory, facts regenerated from the
-    source): whatever functions, methods, types and local variables called `init`, `Init`, `init_`, …
-    the package declares, in however many files, whatever its variables refer to and however, the
-    program logs exactly what the Go specification's rules prescribe with one node per
-    initialisation step. No side condition (before round 3: `src_init_order_partial`). -/
-theorem src_init_order (s : SrcPkg) :
+/-- **C15 for every package given as source that `gta` accepts** (file or directory, facts
+    regenerated from the source): whatever functions, methods, types and local variables called
+    `init`, `Init`, `init_`, … the package declares, in however many files, whatever its variables
+    refer to and however, the program logs exactly what the Go specification's rules prescribe with
+    one node per initialisation step. Side condition: `operandsFirst` only. -/
+theorem src_init_order_partial (s : SrcPkg) (h : operandsFirst (toPkgGo s) = true) :
     runSrcY Generated.C15.execFacts Generated.C15.initFacts Generated.C15.depFacts s = runSrcGoS s ∧
     runSrcImportY Generated.C15.execFacts Generated.C15.initFacts Generated.C15.depFacts s = runSrcGoS s := by
   unfold runSrcY runSrcImportY runSrcGoS
   rw [toPkg_eq_spec]
-  obtain ⟨h1, h2⟩ := init_order_generated (toPkgGo s)
+  obtain ⟨h1, h2⟩ := init_order_generated_partial (toPkgGo s) h
   rw [h1, h2]
   exact ⟨rfl, rfl⟩
 
-/-- compared with the toolchain, on the packages where the two readings agree -/
-theorem src_init_order_toolchain_partial (s : SrcPkg) (h : dom (toPkgGo s) = true) :
+/-- compared with the toolchain, on the packages where, besides, the two readings agree -/
+theorem src_init_order_toolchain_partial (s : SrcPkg) (h0 : operandsFirst (toPkgGo s) = true)
+    (h : dom (toPkgGo s) = true) :
     runSrcY Generated.C15.execFacts Generated.C15.initFacts Generated.C15.depFacts s = runSrcGo s ∧
     runSrcImportY Generated.C15.execFacts Generated.C15.initFacts Generated.C15.depFacts s = runSrcGo s := by
   unfold runSrcY runSrcImportY runSrcGo
   rw [toPkg_eq_spec]
-  obtain ⟨h1, h2⟩ := init_order_toolchain_partial (toPkgGo s) h
+  obtain ⟨h1, h2⟩ := init_order_toolchain_partial (toPkgGo s) h0 h
   rw [h1, h2]
   exact ⟨rfl, rfl⟩
 
 /-- the label the harness uses for a package given as source is "in-domain" exactly on the domain
     of `src_init_order_toolchain_partial` -/
-theorem classifySrc_in_domain_iff (s : SrcPkg) : classifySrc s = "in-domain" ↔ dom (toPkgGo s) = true :=
+theorem classifySrc_in_domain_iff (s : SrcPkg) :
+    classifySrc s = "in-domain" ↔ (operandsFirst (toPkgGo s) = true ∧ dom (toPkgGo s) = true) :=
   classify_in_domain_iff (toPkgGo s)
 
 /-! non-vacuity and sensitivity: two files with look-alikes between two init functions
@@ -500,11 +540,11 @@ theorem classifySrc_in_domain_iff (s : SrcPkg) : classifySrc s = "in-domain" ↔
 def srcLookalikes : SrcPkg :=
   { files := [[.type "rv" ["n"], .type "rf" ["init"],
                .func { name := "init", recv := .value, recvType := "rv", label := "rv_init" },
-               .var ⟨["a"], [⟨"a", [⟨"b", true⟩]⟩], false⟩,
+               .var ⟨["a"], [⟨"a", [⟨"b", true⟩]⟩], false, false⟩,
                .func { name := "init", label := "init0" },
                .func { name := "Init", label := "Init" }],
               [.func { name := "init", recv := .pointer, recvType := "rp", label := "rp_init" },
-               .var ⟨["b"], [⟨"b", []⟩], false⟩,
+               .var ⟨["b"], [⟨"b", []⟩], false, false⟩,
                .func { name := "init_", label := "init_", locals := ["init"] },
                .func { name := "init", label := "init1" },
                .func { name := "initX", label := "initX" }]],
@@ -585,7 +625,7 @@ theorem program_main_last (pr : Prog) (hf : pr.dirMode = false)
     in the order of the import declarations); the toolchain sorts by import path. Not part of the
     property; recorded by the harness. `main` imports c, a, b; a imports b. -/
 theorem package_order_witness :
-    let pk (n : String) : Pkg := ⟨[⟨["X"], [⟨n, []⟩], false⟩], [], [], none⟩
+    let pk (n : String) : Pkg := ⟨[⟨["X"], [⟨n, []⟩], false, false⟩], [], [], none⟩
     let pr : Prog := ⟨[⟨"a", ["b"], pk "a.X"⟩, ⟨"b", [], pk "b.X"⟩, ⟨"c", [], pk "c.X"⟩], ["c", "a", "b"],
                       ⟨[], [], [], some "main"⟩, false⟩
     (progY Expected.C15.execFacts Expected.C15.depFacts pr).seq = ["c", "b", "a", "main"] ∧
@@ -598,7 +638,7 @@ theorem package_order_witness :
   `facts` / `deps`: the facts of the repaired code; `depsBefore`: the decisions as the code made them
   before round 3 (what the extractor reads from the parent of a9bfd4c). -/
 
-private def v1 (n : String) (ids : List String) : VarSpec := ⟨[n], [⟨n, ⟨"lg", true⟩ :: ids.map (⟨·, true⟩)⟩], false⟩
+private def v1 (n : String) (ids : List String) : VarSpec := ⟨[n], [⟨n, ⟨"lg", true⟩ :: ids.map (⟨·, true⟩)⟩], false, false⟩
 private def helpers : List Func := [⟨"lg", [], false⟩, ⟨"two", [⟨"lg", true⟩], false⟩]
 private def facts := Expected.C15.execFacts
 private def deps := Expected.C15.depFacts
@@ -609,7 +649,7 @@ private def depsBefore := Expected.C15.depFactsBefore
     is the earliest ready variable; the toolchain keeps a node per variable: after `a`, `y` still
     waits for `b` and `x` goes first. -/
 def pkgOneNode : Pkg :=
-  ⟨[v1 "y" ["b"], v1 "x" ["a"], ⟨["a", "b"], [⟨"a", [⟨"two", true⟩]⟩], false⟩], helpers, [], some "main"⟩
+  ⟨[v1 "y" ["b"], v1 "x" ["a"], ⟨["a", "b"], [⟨"a", [⟨"two", true⟩]⟩], false, false⟩], helpers, [], some "main"⟩
 theorem one_node_witness :
     classify pkgOneNode = "several-names-one-node" ∧
     runY facts deps pkgOneNode = ⟨["a", "y", "x", "main"], false⟩ ∧
@@ -620,11 +660,33 @@ theorem one_node_witness :
 /-- F15-8, second shape: `var w = lg("w", y); var u = lg("u", x); var x, y int` — a
     specification without value declaring two variables is one (silent) node too -/
 def pkgOneNodeNoValue : Pkg :=
-  ⟨[v1 "w" ["y"], v1 "u" ["x"], ⟨["x", "y"], [], false⟩], helpers, [], some "main"⟩
+  ⟨[v1 "w" ["y"], v1 "u" ["x"], ⟨["x", "y"], [], false, false⟩], helpers, [], some "main"⟩
 theorem one_node_novalue_witness :
     classify pkgOneNodeNoValue = "several-names-one-node" ∧
     runY facts deps pkgOneNodeNoValue = ⟨["w", "u", "main"], false⟩ ∧
     runGo pkgOneNodeNoValue = ⟨["u", "w", "main"], false⟩ := by
+  decide
+
+/-- **F15-9 (open)**: `var v, ok = mp[lg("v")]; var mp = map[int]int{7: lg("mp")}` — `gta` needs the
+    type of `mp` when it meets the comma-ok declaration and panics; with `mp` declared first the
+    package runs, and in the specification's order -/
+def pkgCommaOk (late : Bool) : Pkg :=
+  ⟨(if late then id else List.reverse)
+     [⟨["v", "ok"], [⟨"v", [⟨"mp", true⟩, ⟨"lg", true⟩]⟩], false, late⟩, v1 "mp" []], helpers, [], some "main"⟩
+theorem comma_ok_witness :
+    classify (pkgCommaOk true) = "comma-ok-before-operand" ∧
+    runY facts deps (pkgCommaOk true) = ⟨[], true⟩ ∧ runGoS (pkgCommaOk true) = ⟨["mp", "v", "main"], false⟩ ∧
+    runGo (pkgCommaOk true) = ⟨["mp", "v", "main"], false⟩ ∧
+    classify (pkgCommaOk false) = "in-domain" ∧
+    runY facts deps (pkgCommaOk false) = ⟨["mp", "v", "main"], false⟩ ∧
+    runGo (pkgCommaOk false) = ⟨["mp", "v", "main"], false⟩ := by
+  decide
+
+/-- the full statement fails (F15-9) -/
+theorem full_statement_fails : ¬ ∀ p : Pkg, runY facts deps p = runGoS p := by
+  intro h
+  have := h (pkgCommaOk true)
+  revert this
   decide
 
 /-- compared with the toolchain the full statement still fails (F15-8) -/
@@ -666,7 +728,7 @@ example :
 /-- F15-1 (fixed by 2be263c): `var c = lg("c", p); var p, q = two("p", d); var d = lg("d")` — the
     variables of a multi-value declaration are dependencies now -/
 def pkgMulti : Pkg :=
-  ⟨[v1 "c" ["p"], ⟨["p", "q"], [⟨"p", [⟨"two", true⟩, ⟨"d", true⟩]⟩], false⟩, v1 "d" []], helpers, [], some "main"⟩
+  ⟨[v1 "c" ["p"], ⟨["p", "q"], [⟨"p", [⟨"two", true⟩, ⟨"d", true⟩]⟩], false, false⟩, v1 "d" []], helpers, [], some "main"⟩
 example :
     classify pkgMulti = "in-domain" ∧
     runY facts deps pkgMulti = ⟨["d", "p", "c", "main"], false⟩ ∧ runGo pkgMulti = ⟨["d", "p", "c", "main"], false⟩ ∧
@@ -678,7 +740,7 @@ example :
     the variables of a multi-value declaration (the wrong value they used to read is outside the
     model; what the model states is that `d` now waits for the declaration through `g` and `f` too) -/
 def pkgMultiInFunc : Pkg :=
-  ⟨[⟨["p", "q"], [⟨"p", [⟨"two", true⟩]⟩], false⟩, v1 "d" ["g", "p"]],
+  ⟨[⟨["p", "q"], [⟨"p", [⟨"two", true⟩]⟩], false, false⟩, v1 "d" ["g", "p"]],
    helpers ++ [⟨"f", [⟨"q", true⟩], false⟩, ⟨"g", [⟨"p", true⟩, ⟨"f", true⟩], false⟩], [], some "main"⟩
 example :
     classify pkgMultiInFunc = "in-domain" ∧ collectDepsY deps pkgMultiInFunc = [[], [0, 0, 0]] ∧
@@ -689,7 +751,7 @@ example :
 /-- F15-3 (fixed by 14ebac5): `var p, q = lg("p", c), lg("q"); var c = lg("c", q)` — two steps now;
     as one node it was a false loop -/
 def pkgPaired : Pkg :=
-  ⟨[⟨["p", "q"], [⟨"p", [⟨"lg", true⟩, ⟨"c", true⟩]⟩, ⟨"q", [⟨"lg", true⟩]⟩], false⟩, v1 "c" ["q"]], helpers, [], some "main"⟩
+  ⟨[⟨["p", "q"], [⟨"p", [⟨"lg", true⟩, ⟨"c", true⟩]⟩, ⟨"q", [⟨"lg", true⟩]⟩], false, false⟩, v1 "c" ["q"]], helpers, [], some "main"⟩
 example :
     classify pkgPaired = "in-domain" ∧
     runY facts deps pkgPaired = ⟨["q", "c", "p", "main"], false⟩ ∧ runGo pkgPaired = ⟨["q", "c", "p", "main"], false⟩ ∧
@@ -699,7 +761,7 @@ example :
 /-- F15-4 (fixed by 004b9fa): `var a = lg("a", func() int { b := 7; return b }()); var b = lg("b", a)`
     — a local variable named like a package-level one is not a dependency; it was a false loop -/
 def pkgShadow : Pkg :=
-  ⟨[⟨["a"], [⟨"a", [⟨"lg", true⟩, ⟨"b", false⟩, ⟨"b", false⟩]⟩], false⟩, v1 "b" ["a"]], helpers, [], some "main"⟩
+  ⟨[⟨["a"], [⟨"a", [⟨"lg", true⟩, ⟨"b", false⟩, ⟨"b", false⟩]⟩], false, false⟩, v1 "b" ["a"]], helpers, [], some "main"⟩
 example :
     classify pkgShadow = "in-domain" ∧
     runY facts deps pkgShadow = ⟨["a", "b", "main"], false⟩ ∧ runGo pkgShadow = ⟨["a", "b", "main"], false⟩ ∧
@@ -709,7 +771,7 @@ example :
 /-- F15-5 (fixed by 004b9fa): `var _ = lg("x0"); var a = lg("a"); var _ = lg("x1", a)` — the blank
     identifier is not a dependency -/
 def pkgBlank : Pkg :=
-  ⟨[⟨["_"], [⟨"x0", [⟨"lg", true⟩]⟩], false⟩, v1 "a" [], ⟨["_"], [⟨"x1", [⟨"lg", true⟩, ⟨"a", true⟩]⟩], false⟩], helpers, [], some "main"⟩
+  ⟨[⟨["_"], [⟨"x0", [⟨"lg", true⟩]⟩], false, false⟩, v1 "a" [], ⟨["_"], [⟨"x1", [⟨"lg", true⟩, ⟨"a", true⟩]⟩], false, false⟩], helpers, [], some "main"⟩
 example :
     classify pkgBlank = "in-domain" ∧
     runY facts deps pkgBlank = ⟨["x0", "a", "x1", "main"], false⟩ ∧ runGo pkgBlank = ⟨["x0", "a", "x1", "main"], false⟩ ∧
@@ -729,7 +791,7 @@ example :
   decide
 
 /-- F15-7 (fixed by e843e3f): `var p, q = two("p")` with `two` declared later — `gta` comes back to it -/
-def pkgLate : Pkg := ⟨[⟨["p", "q"], [⟨"p", [⟨"two", true⟩]⟩], true⟩], helpers, [], some "main"⟩
+def pkgLate : Pkg := ⟨[⟨["p", "q"], [⟨"p", [⟨"two", true⟩]⟩], true, false⟩], helpers, [], some "main"⟩
 example :
     classify pkgLate = "in-domain" ∧
     runY facts deps pkgLate = ⟨["p", "main"], false⟩ ∧ runGo pkgLate = ⟨["p", "main"], false⟩ ∧
